@@ -75,8 +75,7 @@ C20Step(s, ev) ==
                   [] ev.c = "string" -> StrStep(s, ev)
                   [] OTHER -> [ok |-> FALSE, st |-> s]
   IN [ok |-> r.ok, st |-> r.st,
-      msg |-> IF r.ok THEN "" ELSE IF ev.e # "Op" THEN "the real code aborted (sanitizer / signal / time-out) in the operation after the last recorded one"
-              ELSE ev.c \o "." \o ev.op \o " is not a step of the abstract model from " \o ToString(s) \o ": " \o ToString(ev)]
+      msg |-> IF r.ok THEN "" ELSE IF ev.e # "Op" THEN "abort" ELSE ev.c \o "." \o ev.op]   \* (tools/props/c20.py words the report)
 
 INSTANCE TraceBase WITH StInit <- Init0, Step <- C20Step
 =============================================================================
